@@ -180,3 +180,17 @@ Fixpoint iter_diff (f : idx -> Z) (ds : list nat) (t : idx) : Z :=
   | [] => f t
   | d :: r => iter_diff f r t - iter_diff f r (bump d t)
   end.
+
+(* t - e_d (used only where t_d >= 1) *)
+Fixpoint unbump (d : nat) (t : idx) : idx :=
+  match t, d with
+  | [], _ => []
+  | x :: r, O => (x - 1) :: r
+  | x :: r, S d' => x :: unbump d' r
+  end.
+
+(* backward difference in direction k of a family V indexed by multi-indexes: V(t) - V(t - e_k), the second term absent when t_k = 0;
+   iterated over the directions ds it is the mixed difference (the tensor of differences Delta_t when V(t) = prod_j u_j(t_j)) *)
+Definition back_diff (k : nat) (V : idx -> Z) (t : idx) : Z := V t - (if nth k t 0 =? 0 then 0 else V (unbump k t)).
+Fixpoint iter_back (V : idx -> Z) (ds : list nat) : idx -> Z :=
+  match ds with [] => V | d :: r => iter_back (back_diff d V) r end.
